@@ -1143,6 +1143,12 @@ class CircuitDAG(CircuitBase):
         :return: nothing
         :rtype: None
         """
+        def groupable(nd):
+            # only genuine one-qubit gates can go into a OneQubitGateWrapper (MeasurementZ also carries the label "one-qubit")
+            return nd in self.node_dict.get("one-qubit", []) and isinstance(
+                self.dag.nodes[nd]["op"], ops.OneQubitOperationBase
+            )
+
         for node in self.node_dict.get("Output", []):
             # traverse the circuit DAG in the reversed order
             reg_type = self.dag.nodes[node]["op"].reg_type
@@ -1158,7 +1164,7 @@ class CircuitDAG(CircuitBase):
                 edge = self.edge_from_reg(in_edges, f"{reg_type}{register}")
                 next_node = edge[0]
 
-                if node in self.node_dict.get("one-qubit", []):
+                if groupable(node):
                     node_info = self.dag.nodes[node]
                     op = node_info["op"]
 
@@ -1167,10 +1173,7 @@ class CircuitDAG(CircuitBase):
                     else:
                         gate_list.append(op.__class__)
                     self.remove_op(node)
-                if (
-                    next_node not in self.node_dict.get("one-qubit", [])
-                    and gate_list
-                ):
+                if not groupable(next_node) and gate_list:
                     # insert new op here
                     out_edges = self.dag.out_edges(nbunch=next_node, keys=True)
                     insert_edge = self.edge_from_reg(out_edges, f"{reg_type}{register}")
